@@ -353,12 +353,18 @@ pub fn run_case_plan(run: &mut Run, rng: &mut Rng, cfg: &Cfg, iters: usize, faul
     run.op(cfg.line(t0), "ok".into());
     run.count(&format!("cfg:{}{}{}", cfg.proto, if cfg.v6 { 6 } else { 4 }, cfg.strat));
     let mut net = ScriptNet { v6: cfg.v6, sends: VecDeque::new(), dt: 0, recv: Recv::None, log: vec![] };
-    let path_len = rng.range(1, u64::from(cfg.max) + 3) as u8;
+    let mut path_len = rng.range(1, u64::from(cfg.max) + 3) as u8;
+    // route changes: the path length may change between rounds (C10: growing / shrinking paths)
+    let route_changes = rng.chance(1, 3);
+    let mut exact_answered_in_round = false;
     let mut mon = Monitor { round_start: t0, last_outcome: 'o', first_iter: true, established: false, established_round: 0, ..Default::default() };
     let mut prev_round_probes: Vec<Probe> = vec![];
     let mut answered: Vec<Resp> = vec![];
     // slots known to still hold an Awaited probe of an earlier round (index -> true)
     let mut stale: Vec<bool> = vec![false; 512];
+    // C01 ground truth of the round in progress: every send_probe call with its outcome, and the probes answered
+    let mut round_log: Vec<(u16, u8, char)> = vec![];
+    let mut round_answered: Vec<u16> = vec![];
     let unit = [cfg.max_round / 6 + 1, cfg.max_round / 2 + 1, 1, cfg.grace, cfg.grace + 1, cfg.min_round, cfg.min_round + 1, cfg.max_round, cfg.max_round + 1, 0, 10_000_000];
     for _it in 0..iters {
         if st.finished(real.max_rounds) { break; }
@@ -480,6 +486,7 @@ pub fn run_case_plan(run: &mut Run, rng: &mut Rng, cfg: &Cfg, iters: usize, faul
                 if is_junk { run.count("c03:junk-checked"); }
                 // C06 / C07: sends of this iteration
                 for (p, o) in &net.log {
+                    round_log.push((p.sequence.0, p.ttl.0, *o));
                     let seq = p.sequence.0;
                     if let Some(&last) = mon.round_seqs.last() { if seq != last.wrapping_add(1) { run.fail("c07-not-consecutive", ctx()); } }
                     else if seq != before_seq_start { run.fail("c07-round-start", ctx()); }
@@ -513,9 +520,11 @@ pub fn run_case_plan(run: &mut Run, rng: &mut Rng, cfg: &Cfg, iters: usize, faul
                                else { st.probes().iter().any(|s| matches!(s, ProbeStatus::Complete(c) if c.sequence == p.sequence)) };
                     if !done { run.fail("c01-genuine-not-completed", ctx()); }
                     run.count("genuine");
+                    round_answered.push(p.sequence.0);
                     mon.last_accept_time = Some(now_after);
                     if p.ttl.0 >= path_len { mon.target_accepted_in_round = true; }
                     if p.ttl.0 == path_len && !mon.established { mon.established = true; mon.established_round = before_round; }
+                    if p.ttl.0 == path_len { exact_answered_in_round = true; }
                 }
                 // C08: publication exactly when the policy says (independent recomputation)
                 let dur = now_after.saturating_sub(mon.round_start);
@@ -526,6 +535,39 @@ pub fn run_case_plan(run: &mut Run, rng: &mut Rng, cfg: &Cfg, iters: usize, faul
                     let want = if mon.target_accepted_in_round { "T/" } else { "L/" };
                     if !pr.starts_with(want) { run.fail("c08-reason", ctx()); }
                     if st.round().0 != before_round + 1 { run.fail("c09-round-id", ctx()); }
+                    // C01: one entry per send_probe call, in order, each with the status the ground truth dictates
+                    {
+                        let pp = pub_probes.borrow();
+                        if pp.len() != round_log.len() {
+                            run.fail("c01-round-mismatch", format!("{} ({} entries reported, {} probes handed to send_probe)", ctx(), pp.len(), round_log.len()));
+                        } else {
+                            for (ps, (seq, ttl, o)) in pp.iter().zip(round_log.iter()) {
+                                let ok = match (ps, o) {
+                                    (ProbeStatus::Skipped, 'a') => true,
+                                    (ProbeStatus::Failed(f), 'f') => f.sequence.0 == *seq && f.ttl.0 == *ttl,
+                                    (ProbeStatus::Complete(c), 'o') => c.sequence.0 == *seq && c.ttl.0 == *ttl && round_answered.contains(seq),
+                                    (ProbeStatus::Awaited(a), 'o') => a.sequence.0 == *seq && a.ttl.0 == *ttl && !round_answered.contains(seq),
+                                    _ => false,
+                                };
+                                if !ok { run.fail("c01-round-mismatch", format!("{} (probe seq {seq} ttl {ttl} outcome {o} reported as {})", ctx(), show_slot(ps))); break; }
+                            }
+                        }
+                        run.count("c01:round-checked");
+                    }
+                    round_log.clear();
+                    round_answered.clear();
+                    // C10: the target at distance d answered the ttl = d probe in this round => the round reports path length d
+                    if exact_answered_in_round {
+                        let want = format!("/{}/[", path_len);
+                        if !pr[1..].starts_with(&want) { run.fail("c10-path-length", format!("{} (true distance {path_len}, published {})", ctx(), &pr[..pr.find('[').unwrap_or(6)])); }
+                        run.count("c10:path-length-checked");
+                    }
+                    exact_answered_in_round = false;
+                    if route_changes && rng.chance(1, 3) {
+                        path_len = rng.range(1, u64::from(cfg.max) + 3) as u8;
+                        mon.established = false;
+                        run.count("route-change");
+                    }
                     if clock::ns_of(st.round_start()) != now_after { run.fail("c08-next-round-start", ctx()); }
                     // C07: next round starts where this one ended or at the initial sequence
                     let end = mon.round_seqs.last().map_or(before_seq_start, |s| s + 1);
